@@ -75,7 +75,7 @@ PROPS = {
                     'entry, VacantEntry::insert, OccupiedEntry::{get,get_mut,into_mut,insert,remove,remove_entry}, get_mut, insert_typed, remove_typed each preserve the invariant '
                     'and have whole-content postconditions (named position pos_of, no existential). retain / iterators / try_from_iter / Eq-Hash-Ord are BOUNDED: every reachable '
                     'content over a universe x every operation against a BTreeMap, to a fixpoint.'),
-    'C12': dict(level='proof', groups=['cksum', 'ckfix', 'lib_lower', 'builder', 'qual'], kani=[], bounded=['checksum'] + A,
+    'C12': dict(level='proof', groups=['cksum', 'ckfix', 'lib_lower', 'builder', 'qual'], kani=[], bounded=['checksum', 'builder'] + A,
         explanation="THEOREMS (group ckfix): theorem_checksum_spellings -- two checksum texts whose entries are the same up to ORDER, letter case of the algorithm names and letter case of the hex digits: if the first is accepted so is the second, and build() stores the SAME canonical text for both (ck_fold characterised independently of the order of the pieces: lemma_ck_fold_char; the canonical text depends on the algorithms and on the hex values up to ASCII case only: lemma_canon_text_hex_case); theorem_checksum_text_fixpoint -- for entries in ascending key order with lower-case comma-free keys and hex values the text parses back (ck_parse) to the same keys with lower-cased hex, and that map's canonical text is the same text; theorem_checksum_rebuild -- whatever text x a checksum qualifier carries, if build() accepts it the text t it stores satisfies ck_text(ck_parse(t)) == t (every map ck_parse returns has a sorted listing: lemma_ck_fold_sorted_listing). Pieces: Proved (Verus): the text of a Checksum is canon_text(entries) -- the strictly sorted listing, lower-case hex -- for EVERY order in which the hash map yields its entries (iteration order modelled as arbitrary; uniqueness lemma), refused iff some value is not an even number of hex digits, no arithmetic overflow for any map including the empty one; parsing equals ck_parse (split ',', last ':', lower-cased algorithm, duplicates refused); build() stores that text. BOUNDED: insert / insert_raw / remove / get and text -> entries -> text: all insertion sequences (length <= 3 / 4) over 10 algorithms x 5 byte strings with case variants, typed round trip, equivalent spellings."),
     'C13': dict(level='proof', groups=['lib_shape'], kani=['type_char'], bounded=['preds', 'shapes', 'tokens:C13', 'scale:C13'] + A,
         explanation='Proved (Verus, all strings): the finish bodies of String, Cow<str> (both arms) and SmartString satisfy the SAME functional postcondition shape_rel '
